@@ -86,10 +86,10 @@ UnLayer(fam, S) ==
          Un(S, {"ornot", "memo", "rewind"}) \cup UnP(S, "trymap", {"nfa"}) \cup UnP(S, "map", {"f"})
          \cup {<<"collect", r, "vec">> : r \in Reps(S, {<<0, Inf>>, <<1, Inf>>})}
     [] fam = "ctx" ->
-         Un(S, {"ornot", "mw"}) \cup {<<"withctx", c, a>> : c \in {VT("a"), VS(<<"a", "b">>), VI(2)}, a \in S}
+         Un(S, {"ornot", "mw"}) \cup {<<"withctx", c, a>> : c \in {VT("a"), VS(<<"a", "b">>), VI(2), VI(3)}, a \in S}
          \cup {<<"mapctx", "f", a>> : a \in S} \cup UnP(S, "map", {"num"})
          \cup {<<"collect", r, "vec">> : r \in Reps(S, {<<0, Inf>>})}
-         \cup {<<"collect", <<cf, <<"rep", a, 0, Inf>>>>, "vec">> : cf \in {"cfgrep", "cfgrepmin", "cfgrepmax"}, a \in {x \in S : ~CanEmpty(x)}}
+         \cup {<<"collect", <<cf, <<"rep", a, 0, Inf>>>>, "vec">> : cf \in {"cfgrep", "cfgrepmin", "cfgrepmax", "cfgreptry"}, a \in {x \in S : ~CanEmpty(x)}}
          \cup {<<"run", <<"cfgrep", <<"rep", a, 0, Inf>>>>>> : a \in {x \in S : ~CanEmpty(x)}}
     [] fam \in {"spn", "spng", "spnr", "spni"} ->
          \* every node can be wrapped in a span / slice capture (to_slice only where the kind has slices)
